@@ -165,7 +165,59 @@ func Run(seed int64, goroutines, perG int, buggyShared bool) []Event {
 		ecSK[i], _ = crypto.DecodePrivateKey(a, ecSK[i].Encode())
 		ecSK[i].PublicKey() // not in the property's list: forced once, sequentially
 	}
-	var mu sync.Mutex
+	// per-goroutine logs, merged at the end: a shared lock around the log would order the goroutines' accesses
+	// (happens-before) and hide unsynchronised accesses from the race detector
+	logs := make([][]Event, goroutines)
+	call := func(gid int, o op, own hash.Hasher) {
+		before := make([][]byte, len(o.args))
+		for i, a := range o.args {
+			before[i] = append([]byte(nil), a...)
+		}
+		h := hash.Hasher(shared)
+		if o.own {
+			h = own
+		}
+		res := o.run(h)
+		same := true
+		for i, a := range o.args {
+			same = same && bytes.Equal(before[i], a)
+		}
+		logs[gid] = append(logs[gid], Event{E: "conc", Key: o.key, Result: res, ArgsUnchanged: same, G: gid})
+	}
+	owns := make([]hash.Hasher, goroutines)
+	for i := range owns {
+		owns[i] = hash.NewSHA3_256()
+	}
+	// phase 1, volleys: every goroutine makes the FIRST use of a fresh object at the same moment, one operation at a time
+	volley := func(o op) {
+		var wg sync.WaitGroup
+		start := make(chan struct{})
+		for gi := 0; gi < goroutines; gi++ {
+			wg.Add(1)
+			go func(gid int) {
+				defer wg.Done()
+				<-start
+				call(gid, o, owns[gid])
+			}(gi)
+		}
+		close(start)
+		wg.Wait()
+	}
+	seen := map[string]bool{}
+	for _, o := range ops {
+		// one volley per kind of operation and key index (e.g. bls.VerifyPOP/2, bls.Sign/1, ecdsa.Verify/0)
+		k := o.key
+		if idx := len(k) - 1; idx > 0 && k[idx-1] == '/' && len(k) > 3 {
+			if j := lastSlashBefore(k, idx-1); j > 0 {
+				k = k[:idx-1]
+			}
+		}
+		if !seen[k] {
+			seen[k] = true
+			volley(o)
+		}
+	}
+	// phase 2, random mixes
 	var wg sync.WaitGroup
 	start := make(chan struct{})
 	for gi := 0; gi < goroutines; gi++ {
@@ -173,30 +225,25 @@ func Run(seed int64, goroutines, perG int, buggyShared bool) []Event {
 		r := rand.New(rand.NewSource(seed*977 + int64(gi)))
 		go func(gid int, r *rand.Rand) {
 			defer wg.Done()
-			own := hash.NewSHA3_256()
 			<-start
 			for k := 0; k < perG; k++ {
-				o := ops[r.Intn(len(ops))]
-				before := make([][]byte, len(o.args))
-				for i, a := range o.args {
-					before[i] = append([]byte(nil), a...)
-				}
-				h := hash.Hasher(shared)
-				if o.own {
-					h = own
-				}
-				res := o.run(h)
-				same := true
-				for i, a := range o.args {
-					same = same && bytes.Equal(before[i], a)
-				}
-				mu.Lock()
-				events = append(events, Event{E: "conc", Key: o.key, Result: res, ArgsUnchanged: same, G: gid})
-				mu.Unlock()
+				call(gid, ops[r.Intn(len(ops))], owns[gid])
 			}
 		}(gi, r)
 	}
 	close(start)
 	wg.Wait()
+	for _, l := range logs {
+		events = append(events, l...)
+	}
 	return events
+}
+
+func lastSlashBefore(s string, end int) int {
+	for i := end - 1; i >= 0; i-- {
+		if s[i] == '/' {
+			return i
+		}
+	}
+	return -1
 }
